@@ -151,3 +151,56 @@ Print Assumptions C05_aligned_scope_inhabited.
 Example C05_annex_a_aligned : ltac:(let T := type of (conj annex_a1_aligned (conj annex_a2_aligned annex_a3_aligned)) in exact T).
 Proof. exact (conj annex_a1_aligned (conj annex_a2_aligned annex_a3_aligned)). Qed.
 Print Assumptions C05_annex_a_aligned.
+
+(** ------------------------------------------------------------------
+    Tie to the SOURCE TEXT (coq/gen/PyPer.v regenerated from per.py on every run):
+    the regenerated width / size helper functions ARE the functions the models use. *)
+From Asn1V Require Py.PyPerTie.
+
+Theorem C05_src_integer_as_number_of_bits : ltac:(let T := type of Asn1V.Py.PyPerTie.py_integer_as_number_of_bits_eq in exact T).
+Proof. exact Asn1V.Py.PyPerTie.py_integer_as_number_of_bits_eq. Qed.
+Print Assumptions C05_src_integer_as_number_of_bits.
+
+Theorem C05_src_integer_as_number_of_bits_power_of_two : ltac:(let T := type of Asn1V.Py.PyPerTie.py_integer_as_number_of_bits_power_of_two_eq in exact T).
+Proof. exact Asn1V.Py.PyPerTie.py_integer_as_number_of_bits_power_of_two_eq. Qed.
+Print Assumptions C05_src_integer_as_number_of_bits_power_of_two.
+
+Theorem C05_src_size_as_number_of_bytes : ltac:(let T := type of Asn1V.Py.PyPerTie.py_size_as_number_of_bytes_eq in exact T).
+Proof. exact Asn1V.Py.PyPerTie.py_size_as_number_of_bytes_eq. Qed.
+Print Assumptions C05_src_size_as_number_of_bytes.
+
+Theorem C05_src_is_unbound : ltac:(let T := type of Asn1V.Py.PyPerTie.py_is_unbound_eq in exact T).
+Proof. exact Asn1V.Py.PyPerTie.py_is_unbound_eq. Qed.
+Print Assumptions C05_src_is_unbound.
+
+Theorem C05_src_to_int : ltac:(let T := type of Asn1V.Py.PyPerTie.py_to_int_eq in exact T).
+Proof. exact Asn1V.Py.PyPerTie.py_to_int_eq. Qed.
+Print Assumptions C05_src_to_int.
+
+Theorem C05_src_to_byte_array : ltac:(let T := type of Asn1V.Py.PyPerTie.py_to_byte_array_eq in exact T).
+Proof. exact Asn1V.Py.PyPerTie.py_to_byte_array_eq. Qed.
+Print Assumptions C05_src_to_byte_array.
+
+(** ------------------------------------------------------------------
+    Constraints written on a REFERENCE at a component site (Per/RefSite.v): the site means the derived definition
+    "Id.k ::= Id (constraint)"; [elab_env] computes the environment from the definitions as written, and the X.691
+    encoding of a value at such a site is the encoding at the inlined derived type - while a plain site of the same
+    named type under the same identifier is unchanged by what other sites carry.  harness/c05_refsites.py generates
+    several same-named reference sites of one type, each with its own SIZE / range / OPTIONAL / DEFAULT / tag. *)
+From Asn1V Require Per.RefSite.
+
+Theorem C05_site_inline : ltac:(let T := type of Asn1V.Per.RefSite.x691_site_inline in exact T).
+Proof. exact Asn1V.Per.RefSite.x691_site_inline. Qed.
+Print Assumptions C05_site_inline.
+
+Theorem C05_site_inline_aligned : ltac:(let T := type of Asn1V.Per.RefSite.x691a_site_inline in exact T).
+Proof. exact Asn1V.Per.RefSite.x691a_site_inline. Qed.
+Print Assumptions C05_site_inline_aligned.
+
+Theorem C05_plain_site_unchanged : ltac:(let T := type of Asn1V.Per.RefSite.x691_plain_site_unchanged in exact T).
+Proof. exact Asn1V.Per.RefSite.x691_plain_site_unchanged. Qed.
+Print Assumptions C05_plain_site_unchanged.
+
+Theorem C05_plain_site_unchanged_aligned : ltac:(let T := type of Asn1V.Per.RefSite.x691a_plain_site_unchanged in exact T).
+Proof. exact Asn1V.Per.RefSite.x691a_plain_site_unchanged. Qed.
+Print Assumptions C05_plain_site_unchanged_aligned.
